@@ -11,7 +11,7 @@ META = {
                  "block_parameters_index is assigned before write_block(block); R18.7 a member-wise comparison of two values of one record type in the tools compares every data member (zero instances on the pinned tree; positive and negative control in tu/rule_controls.cpp); R18.3 each input is processed in its own try inside "
                  "the loop body in both passes, and the version check compares all three version members; R18.4 cdns-itemcount's "
                  "totals are sums of get_qr/aec/mm_count of each block returned before `end`, the per-block lines print those same "
-                 "calls; R18.5 a block is rewritten relative to its own earliest time and parameters (time preservation). R18.2 remap-unconditional: the index rewrite sits only under the lookup test. R18.3 reference-from-first-readable: the reference preamble is assigned under a flag lowered in the same place, not under the position in the input list. R18.3 version check decided by truth table over the three equalities; the reference preamble may be taken member by member when all three version members are taken.",
+                 "calls; R18.5 a block is rewritten relative to its own earliest time and parameters (time preservation). R18.2 remap-unconditional: the index rewrite sits only under the lookup test. R18.3 reference-from-first-readable: the reference preamble is assigned under a flag lowered in the same place, not under the position in the input list. R18.3 version check decided by truth table over the three equalities; the reference preamble may be taken member by member when all three version members are taken. R18.2 also: remap-takes-mapped-value (the block gets ->second of the looked-up pair, ->first is the key = its old index) and write-only-before-end (the guard of write_block(block), evaluated three-valued with the flag handed to read_block() set, is false when the flag is true). R18.3 version-check is decided by the truth table over the three version equalities only (no textual shortcut). R18.4 after-end-test uses the same guard evaluation. R18.8 = R05.7 (read_block's end-of-blocks protocol).",
     "explanation": "Structural necessary conditions over the two tool mains; equality of merged content with the inputs and the "
                    "text layout of the tools are not decided.",
     "trusted_base": ["clang 14 AST", "std::unordered_map::operator[] value-initialises a missing key"],
